@@ -51,8 +51,42 @@ func c05witnesses() []c05probe {
 		{"ident_title_collision", "a struct with fields foo and Foo", mk("w9", "A", []*c05.StructDecl{sfoo}, zz(), fn("f", nil, par("a", c05.RefTo(sfoo)))), false},
 		{"method_reserved_name", "a method named proxy", mk("w10", "A", nil, zz(), fn("proxy", nil)), false},
 		{"result_any_member", "a method returning a struct with a field of type any", mk("w12", "A", []*c05.StructDecl{sany}, zz(), fn("f", c05.RefTo(sany))), true},
+		{"prop_any_roundtrip", "a property of type any, set through the proxy and read back", mk("w13", "A", nil, zz(), act("prop", "s", par("a", c05.Sc("any")))), true},
+		{"objref_property", "a property holding an object of another interface", c05objWitness("w14", "prop"), false},
+		{"objref_in_struct", "a two-parameter signal carrying an object", c05objWitness("w15", "sig2"), false},
+		{"objref_in_struct", "a struct with an object field", c05objWitness("w16", "struct"), false},
+		{"obj_plain_param", "a method parameter of type obj", mk("w17", "A", nil, zz(), fn("f", nil, par("b", c05.Sc("obj")))), false},
+		{"objref_package_path", "a method returning an object, generated with a package path (stub --path)", c05objWitness("w18", "path"), false},
+		{"objref_lowercase_iface", "a method returning an object of an interface named bomb", c05objWitness("w19", "lower"), false},
+		{"method_shadows_generic", "a method property(any) next to four properties (which of the two methods a call reaches is decided per call by map iteration order)", mk("w20", "A", nil, zz(), fn("property", i32, par("a", c05.Sc("any"))), act("prop", "s", par("a", i32)), act("prop", "t", par("a", str)), act("prop", "u", par("a", i32)), act("prop", "v", par("a", str))), true},
 		{"prop_any_value_shadow", "a property of type any", mk("w11", "A", nil, zz(), act("prop", "s", par("a", c05.Sc("any")))), false},
 	}
+}
+
+// c05objWitness: interface Bomb handed around by interface A in the given shape.
+func c05objWitness(name, shape string) *c05.Package {
+	i32 := c05.Sc("int32")
+	bomb := &c05.Iface{Name: "Bomb", Actions: []*c05.Action{{Kind: "fn", Name: "arm", Params: []c05.Param{{Name: "a", T: i32}}, Ret: i32}}}
+	a := &c05.Iface{Name: "A", Actions: []*c05.Action{{Kind: "fn", Name: "zz", Params: []c05.Param{{Name: "a", T: i32}}, Ret: i32}}}
+	p := &c05.Package{Name: name, Ifaces: []*c05.Iface{bomb, a}, Stream: "probe"}
+	switch shape {
+	case "prop":
+		a.Actions = append(a.Actions, &c05.Action{Kind: "prop", Name: "cur", Params: []c05.Param{{Name: "b", T: c05.ObjOf(bomb)}}})
+	case "sig2":
+		a.Actions = append(a.Actions, &c05.Action{Kind: "sig", Name: "sent", Params: []c05.Param{{Name: "x", T: i32}, {Name: "b", T: c05.ObjOf(bomb)}}})
+	case "struct":
+		s := &c05.StructDecl{Name: "Cargo", Fields: []c05.Field{{Name: "b", T: c05.ObjOf(bomb)}, {Name: "n", T: i32}}}
+		p.Structs = append(p.Structs, s)
+		a.Actions = append(a.Actions, &c05.Action{Kind: "fn", Name: "load", Params: []c05.Param{{Name: "c2", T: c05.RefTo(s)}}})
+	case "lower":
+		bomb.Name = "bomb"
+		a.Actions = append(a.Actions, &c05.Action{Kind: "fn", Name: "shoot", Ret: c05.ObjOf(bomb)})
+	case "path":
+		a.Actions = append(a.Actions, &c05.Action{Kind: "fn", Name: "shoot", Ret: c05.ObjOf(bomb)})
+		p.GenPath = "qv/pkgs/" + name + "/" + name
+	}
+	p.Number()
+	return p
 }
 
 // c05probes builds each witness package; a switch is on when a witness does not compile.
